@@ -155,6 +155,35 @@ theorem multi_cell_charge (w : World ℝ) (explicit : Option Nat) (ε : ℝ) {ρ
   simp [List.map_replicate, List.sum_replicate]
   field_simp
 
+/-- multi-quantile over an axis (`m` quantiles × `n` cells), over ℝ: the check that quantile `j`'s own `_wrap_axis`
+performs first — `check(ε/m, 0)` after the `j·n` cell spends of the earlier quantiles — is implied by the
+up-front `check(ε, 0)`: every one of the three sums of `total` only shrinks when one spend of `ε` is replaced by
+`j·n` spends of `ε/m/n` and one of `ε/m`.  (With the cells' own checks covered by `multi_cell_charge`, a
+multi-quantile query is therefore never refused part-way OVER ℝ.  In IEEE doubles this particular step can fail by
+one rounding at an exactly fitting budget — `quantile(X(4×7), [0.5, 0.1], epsilon=0.3, axis=0)` on
+`BudgetAccountant(0.3, 0)` —, which the check reports as a finding; the faithful model run on doubles reproduces it.) -/
+theorem multi_quantile_inner_check (a : Acc ℝ) (hs0 : 0 ≤ a.slack) (hs1 : a.slack ≤ 1) (ε : ℝ) (m n j : Nat)
+    (hn : 0 < n) (hj : j < m) (hε : 0 < ε)
+    (hmin : ¬ (0 < ε / (m : ℝ) ∧ ε / (m : ℝ) < a.minEps))
+    (hc : a.check ε 0 = .ok ()) :
+    (Acc.plus a (List.replicate (j * n) ⟨ε / (m : ℝ) / (n : ℝ), 0⟩)).check (ε / (m : ℝ)) 0 = .ok () := by
+  have hm : 0 < m := Nat.lt_of_le_of_lt (Nat.zero_le _) hj
+  have hm' : (0 : ℝ) < m := by exact_mod_cast hm
+  have hn' : (0 : ℝ) < n := by exact_mod_cast hn
+  have he : 0 < ε / (m : ℝ) := div_pos hε hm'
+  have hcpos : 0 < ε / (m : ℝ) / (n : ℝ) := div_pos he hn'
+  have hk : (((j * n : ℕ)) : ℝ) * (ε / (m : ℝ) / (n : ℝ)) = (j : ℝ) * (ε / (m : ℝ)) := by
+    push_cast; field_simp
+  have hjm : (j : ℝ) + 1 ≤ m := by exact_mod_cast hj
+  have hsum : (((j * n : ℕ)) : ℝ) * (ε / (m : ℝ) / (n : ℝ)) + ε / (m : ℝ) ≤ ε := by
+    rw [hk]
+    have : ((j : ℝ) + 1) * (ε / (m : ℝ)) ≤ (m : ℝ) * (ε / (m : ℝ)) := mul_le_mul_of_nonneg_right hjm he.le
+    have h2 : (m : ℝ) * (ε / (m : ℝ)) = ε := by field_simp
+    linarith
+  have hfit := fits_split_real a hs0 hs1 a.spent ε _ _ (j * n) hcpos he hsum (fits_of_check a ε 0 hc)
+  exact check_of_fits (Acc.plus a (List.replicate (j * n) ⟨ε / (m : ℝ) / (n : ℝ), 0⟩)) (ε / (m : ℝ)) 0
+    (checkEpsDelta_of_pos _ he) hmin hfit
+
 /-! ## non-vacuity -/
 
 /-- a finite accountant (ceiling 1) accepts a scalar query of ε = 1/2 and refuses one of ε = 2 -/
